@@ -5,7 +5,7 @@ import math
 
 from rv import bridge, gen, solvercheck as SC, suite
 from rv.bridge import ALL, ANY
-from rv.core import Inconclusive
+from rv.core import Inconclusive, skippable
 from rv.refmodel import dtl, label
 
 INF = math.inf
@@ -162,6 +162,7 @@ def judge_uspfs_tables(B, algo, hooks, ctx):
 
 
 # -------------------------------------------------------------- check_case
+@skippable
 def check_case(ctx, prop, case, algos, report=None, hooks=None, tables=True, selfcheck=False):
     report = report or (lambda mon, msg, **d: ctx.viol(f"{prop}.{mon}", case, msg, **d))
     B = bridge.Built(case)
@@ -261,7 +262,10 @@ def run_generic(ctx, prop, kind, algos, spec):
                 case = suite.random_super_case(
                     rng, algos[0], spec["max_obj"], spec["max_sp"], spec["max_fam"],
                     consistent_p=spec.get("consistent_p", 0.9), root_order_p=spec.get("root_order_p", 0.25), min_obj=spec.get("min_obj", 2),
+                    min_sp=spec.get("min_sp", 1),
                 )
+                if spec.get("min_sp", 1) >= 5:
+                    ctx.count("wide_species_cases")
                 case["algos"] = list(algos)
                 tiny = len(case["leafmap"]) <= 3 and len(case["S"]) <= 3 if not isinstance(case["S"], str) else True
                 check_case(ctx, prop, case, algos, hooks=hooks, selfcheck=tiny and k % 5 == 0)
